@@ -75,31 +75,44 @@ def wide_worker(arg):
     diff = []
     ty = ("int%d" % n) if signed else (("truncated " if mode == "t" else "") + "uint%d" % n)
     from .. import dsdlio
-    with dsdlio.Tree({"ns/X.1.0.dsdl": "bool b\n%s x\nuint3 tail\n@sealed\n" % ty}, "wide") as tr:
+    # the field starts at every bit offset 0..7 within a byte (a leading uintK head), so that every combination of start
+    # offset and width modulo 8 occurs
+    files = {"ns/X%d.1.0.dsdl" % k: ("uint%d head\n" % k if k else "") + "%s x\nuint3 tail\n@sealed\n" % ty for k in range(8)}
+    with dsdlio.Tree(files, "wide") as tr:
         status, res, _ = dsdlio.read_ns(tr.path("ns"))
         if status != "ok":
             return {"nt": True, "key": "w%d%s%s" % (n, signed, mode),
                     "bad": {"kind": "wide", "case": [n, signed, mode], "diff": [("rejected", str(res)[:200])]}}
-        X = res[0]
         lo, hi = (-(1 << (n - 1)), (1 << (n - 1)) - 1) if signed else (0, (1 << n) - 1)
-        for v in (lo - 1, lo, lo + 1, -1, 0, 1, hi - 1, hi, hi + 1, 2 * hi + 1, (1 << 70) + 5, -(1 << 70) - 5):
-            if mode == "t":
-                cv = v % (1 << n)
-            else:
-                cv = max(lo, min(hi, v))
-            raw = cv % (1 << n)
-            word = 1 | (raw << 1) | (5 << (1 + n))
-            nbits = 1 + n + 3
-            exp = word.to_bytes((nbits + 7) // 8, "little")
-            try:
-                got = pydsdl.serialize(X, {"b": True, "x": v, "tail": 5})
-                if got != exp:
-                    diff.append(("serialize", v, got.hex(), exp.hex()))
-                back = pydsdl.deserialize(X, got)
-                if back != {"b": True, "x": cv, "tail": 5}:
-                    diff.append(("round trip", v, repr(back), cv))
-            except Exception as ex:
-                diff.append(("exception", v, type(ex).__name__, str(ex)[:100]))
+        for X in res:
+            k = int(X.short_name[1:])
+            headv = (1 << k) - 1 if k else 0
+            for v in (lo - 1, lo, lo + 1, -1, 0, 1, hi - 1, hi, hi + 1, 2 * hi + 1, (1 << 70) + 5, -(1 << 70) - 5,
+                      (0xA5A5A5A5A5A5A5A5A5 >> 3) & hi | (1 << (n - 1) if not signed else 0)):
+                if mode == "t":
+                    cv = v % (1 << n)
+                    if signed and cv > hi:
+                        cv -= 1 << n
+                else:
+                    cv = max(lo, min(hi, v))
+                raw = cv % (1 << n)
+                word = headv | (raw << k) | (5 << (k + n))
+                nbits = k + n + 3
+                exp = word.to_bytes((nbits + 7) // 8, "little")
+                obj = {"x": v, "tail": 5}
+                want = {"x": cv, "tail": 5}
+                if k:
+                    obj["head"] = headv
+                    want["head"] = headv
+                try:
+                    got = pydsdl.serialize(X, obj)
+                    if got != exp:
+                        diff.append(("serialize", k, v, got.hex(), exp.hex()))
+                    back = pydsdl.deserialize(X, got)
+                    if back != want:
+                        diff.append(("round trip", k, v, repr(back), cv))
+                except Exception as ex:
+                    diff.append(("exception", k, v, type(ex).__name__, str(ex)[:100]))
     r = {"nt": True, "key": "w%d%s%s" % (n, signed, mode)}
     if diff:
         r["bad"] = {"kind": "wide", "case": [n, signed, mode], "diff": diff[:4]}
@@ -164,15 +177,27 @@ def run(ctx):
                 "out-of-range) elsewhere, all array lengths, every variant. Each state: serialize() == specification bytes, "
                 "deserialize() == canonical value, relaxed forms and omitted defaults give the same bytes, length in the "
                 "real bit_length_set. Non-trivial = encoding longer than one byte; distinct by hash of the case. Integer "
-                "widths 17..64 and all cast modes are sampled with closed-form expectations (not decided by TLC)")
-    ctx.assumptions = ["IEEE-754 value <-> pattern conversion is not decided: floats are opaque patterns with exact values; a fixed "
-                       "list of 18-22 values per float type (zeros, extremes, subnormals, infinities, NaN, out-of-range) is sampled against struct.pack",
+                "widths 17..64 and all cast modes are sampled with closed-form expectations (not decided by TLC). Floats.tla: "
+                "every binade of binary16 / binary32 x boundary fractions x j/8 ulp perturbations x sign x cast mode, beyond-range "
+                "values, infinities, NaN: serialize() gives the round-to-nearest-even pattern (saturated: clamped, truncated: "
+                "infinity), deserialize() of each pattern gives its exact value")
+    ctx.assumptions = ["IEEE 754 conversion is decided by Floats.tla for binary16 (quick: boundary fractions of every binade, thorough: "
+                       "every pattern) and binary32 (boundary fractions of every binade), each value perturbed by 0..7 eighths of an ulp; "
+                       "binary64 (53-bit significands exceed TLC's integers; a Python float is a binary64 pattern) stays a sampled list "
+                       "of 18-22 values against struct.pack",
                        "TLC's evaluation of the specification", "UTF-8 / byte arrays are not in the enumerated universe"]
     cfg = "Wire_values_quick.cfg" if ctx.tier == "quick" else "Wire_values_thorough.cfg"
     c02.run_cfg(ctx, "Wire", cfg, worker, "wire")
     wide = [(n, s, m) for n in list(range(1, 65)) for (s, m) in ((False, "s"), (False, "t"), (True, "s")) if not (s and n < 2)]
     c02.consume(ctx, core.pmap(wide_worker, wide, chunksize=8), "wide")
     c02.consume(ctx, core.pmap(float_worker, [(n, m) for n in (16, 32, 64) for m in ("s", "t")], procs=6, chunksize=1), "float")
+    # IEEE 754 binary16 / binary32: decided by Floats.tla (every binade x boundary fractions x eighths of an ulp x sign x cast
+    # mode; thorough: every binary16 pattern)
+    from .. import float_replay
+    c02.run_cfg(ctx, "Floats", "Floats_boundary.cfg" if ctx.tier == "quick" else "Floats_all16.cfg", float_replay.worker, "ieee",
+                mk=lambda blocks: list(blocks))
+    if ctx.tier != "quick":
+        c02.run_cfg(ctx, "Floats", "Floats_boundary.cfg", float_replay.worker, "ieee32", mk=lambda blocks: list(blocks))
     ctx.sample({"type": "struct{ void3; delimited(extent 16){uint8} }", "value": [0, [7]], "bytes": "000100000007"})
 
 def replay(ctx, rec):
